@@ -66,6 +66,8 @@ type Frame struct {
 	retVals []Val
 	srcMap  map[token.Pos]string
 	matched map[*Clause]bool
+	callCallee   *ssa.Function
+	callBindings []Val
 	frameLo, frameHi string // position range of the element write being frame-checked
 	iters   map[*ssa.Range]string
 	lastIter string
@@ -772,6 +774,17 @@ func (fr *Frame) doPhi(phi *ssa.Phi, b *ssa.BasicBlock, ins []edgeIn) {
 		e.sc.assert(sImp(in.reach, "(= "+c+" "+ops[i].T+")"))
 	}
 	v := Val{T: c, Ty: phi.Type()}
+	if ops[0].From != nil {
+		same := true
+		for _, o := range ops[1:] {
+			if o.From == nil || *o.From != *ops[0].From {
+				same = false
+			}
+		}
+		if same {
+			v.From = ops[0].From
+		}
+	}
 	// keep closure info if all operands agree
 	if ops[0].Clo != nil {
 		ok := true
@@ -1355,6 +1368,9 @@ func (fr *Frame) value(v ssa.Value) Val {
 		a := fr.val(x.X)
 		k := fr.val(x.Index)
 		if mt, ok := a.Ty.Underlying().(*types.Map); ok {
+			if a.From != nil {
+				fr.lockCheck(Val{Src: a.From}, false) // reading the contents of a guarded map
+			}
 			if e.sortOf(mt.Key()) == "Int" {
 				e.noteIndexTerm(k.T)
 			}
@@ -1436,9 +1452,12 @@ func (fr *Frame) value(v ssa.Value) Val {
 			fr.iters[x] = c
 			fr.lastIter = c
 		}
-		return Val{T: a.T, Ty: x.X.Type()}
+		return Val{T: a.T, Ty: x.X.Type(), From: a.From}
 	case *ssa.Next:
 		it := fr.val(x.Iter)
+		if it.From != nil {
+			fr.lockCheck(Val{Src: it.From}, false) // iterating a guarded map
+		}
 		ok := e.sc.fresh("next.ok", "Bool")
 		tup := x.Type().(*types.Tuple)
 		if x.IsString {
